@@ -209,6 +209,28 @@ def _exit_paths(fa, cap=20000):
                     and not any(effectful(cfg.node(i)) for i in path[didx + 1:]):
                 return atoms(val, dnode, positive, {k: v for k, v in env.items() if v[2] < didx}, path[:didx])
         t2 = Sub().visit(copy.deepcopy(t)) if acc else t
+        # a local with several reaching definitions (which FA leaves unexpanded) reads, on THIS path, as the value it
+        # was last given: a constant always, another effect-free expression if nothing with an effect ran since
+        subs = {}
+        for nm in {x.id for x in ast.walk(t2) if isinstance(x, ast.Name) and isinstance(x.ctx, ast.Load) and x.id in env}:
+            if len(fa.df.reaching(node_id, nm)) <= 1:
+                continue
+            val, dnode, didx = env[nm]
+            if isinstance(val, ast.Constant):
+                subs[nm] = val
+            elif not any(isinstance(x, (ast.Call, ast.Lambda, ast.ListComp, ast.SetComp, ast.DictComp, ast.GeneratorExp, ast.Await, ast.NamedExpr)) for x in ast.walk(val)) \
+                    and not any(effectful(cfg.node(i)) for i in path[didx + 1:]):
+                subs[nm] = fa.expand(val, dnode)
+        if subs:
+            class S2(ast.NodeTransformer):
+                def visit_Name(self, n):
+                    return copy.deepcopy(subs[n.id]) if isinstance(n.ctx, ast.Load) and n.id in subs else n
+            t2 = S2().visit(copy.deepcopy(t2))
+            if isinstance(t2, ast.Compare) and len(t2.ops) == 1 and isinstance(t2.left, ast.Constant) and isinstance(t2.comparators[0], ast.Constant) \
+                    and isinstance(t2.ops[0], (ast.Is, ast.IsNot, ast.Eq, ast.NotEq)):
+                same = t2.left.value is t2.comparators[0].value if isinstance(t2.ops[0], (ast.Is, ast.IsNot)) else t2.left.value == t2.comparators[0].value
+                truth = same if isinstance(t2.ops[0], (ast.Is, ast.Eq)) else not same
+                return [] if truth == positive else None
         return [fa._literal(t2, node_id, positive)]
 
     def dfs(n, path, lits, env, twice):
@@ -1442,6 +1464,10 @@ def check_update_protocol(ck, R):
             return [A.const_str(e) for e in v_.args[1].elts]
         if isinstance(v_, ast.Call) and A.call_attr(v_) == "namedtuple" and len(v_.args) == 2 and A.const_str(v_.args[1]):
             return A.const_str(v_.args[1]).replace(",", " ").split()
+        c_ = m_.classes.get(A.call_attr(ctor) or "")
+        if c_ is not None:
+            # typing.NamedTuple / dataclass: the annotated class attributes, in order
+            return [x.target.id for x in c_.node.body if isinstance(x, ast.AnnAssign) and isinstance(x.target, ast.Name)]
         return None
 
     stores = [s_ for s_ in fa.stmts(ast.Assign) if fa.nodes(s_) and any(isinstance(t, ast.Subscript) and fa.xnorm(t.value, fa.nodes(s_)[0]) == CACHE for t in s_.targets)]
@@ -1450,6 +1476,8 @@ def check_update_protocol(ck, R):
         at_ = fa.nodes(s_)[0]
         v = fa.expand(s_.value, at_)
         flds = nt_fields(v) if isinstance(v, ast.Call) else None
+        if flds is None and isinstance(v, ast.Call) and not v.args:
+            flds = []  # all fields are named at the call: their order does not matter
         okv = flds is not None and len(s_.targets) == 1
         if okv:
             bound = dict(zip(flds, v.args))
